@@ -91,6 +91,12 @@ pub fn generate(rng: &mut Rng, thorough: bool) -> Vec<String> {
         let du0 = match rng.below(4) { 0 => "0 0 0 0 0 0 0 0 0 0".to_string(), 1 => format!("0 0 0 0 {} 0 0 0 0 0", rng.range(0, 30)), 2 => format!("0 0 0 {} 0 0 0 0 0 0", rng.range(0, 3)), _ => format!("0 {} 0 0 0 0 0 0 0 0", rng.range(0, 2)) };
         v.push(format!("w19_dur_none {du0} total {}", rng.pick(&UNITS)));
         v.push(format!("w19_dur_none {du0} round {}", rng.pick(&UNITS)));
+        // ... and with a largest unit given (auto counts as given) while the smallest is absent, and the reverse
+        let du1 = format!("0 0 0 0 {} {} {} 0 0 0", rng.range(0, 30), rng.range(0, 200), rng.range(0, 200));
+        let lu = *rng.pick(&["auto", "-", "hour", "minute", "second", "day"]);
+        let su = *rng.pick(&["-", "-", "second", "minute", "millisecond"]);
+        v.push(format!("w19_dur_opts {du1} {lu} {su}"));
+        v.push(format!("w19_dur_opts {du0} {lu} {su}"));
         // FFI slice
         v.push(format!("w19_capi_instant {ns}"));
         v.push(format!("w19_capi_instant {}", -ns));
@@ -306,6 +312,11 @@ pub fn eval(t: &[&str]) -> Option<String> {
                 "total_hour" => cmp(du.total(Unit::Hour, rel()), du.total_with_provider(Unit::Hour, rel(), &p)),
                 _ => cmp(du.compare(&du.negated(), rel()), du.compare_with_provider(&du.negated(), rel(), &p)),
             }
+        }
+        "w19_dur_opts" => {
+            let du = duration_from(&t[1..11]).ok()?;
+            let mk = || { let mut o = RoundingOptions::default(); o.largest_unit = opt_unit(t[11]); o.smallest_unit = opt_unit(t[12]); o };
+            cmp(du.round(mk(), None), du.round_with_provider(mk(), None, &p))
         }
         "w19_dur_none" => {
             let du = duration_from(&t[1..11]).ok()?;
